@@ -119,6 +119,10 @@ func (t *TestCase) Execute(cpu *cpu.CPU6502, asm assembler.Assembler, scriptPath
 		numIters = 1
 	}
 
+	if numIters < 1 {
+		return fmt.Errorf("unable to execute test case '%s': number of iterations is not a positive number", t.Name)
+	}
+
 	for i = 0; (i < numIters) && testRes; i++ {
 		err = ctx.CallArrange()
 		if err != nil {
